@@ -2,7 +2,9 @@
 // ApiCheckAuthMiddleware::call is an async closure in a generic actix Service impl (regex, header / query / form parsing) —
 // outside Verus.  The REAL middleware and the REAL route table (web_config::app_config) are mounted on an actix test
 // service with OpenAPI auth ON; every path x method x token placement below, none carrying a token issued by a login,
-// must be answered 403 "unknown user!" by the middleware — except the endpoints the property itself exempts.
+// must be answered 403 "unknown user!" by the middleware — except the endpoints the property itself exempts.  Then the lifetime of a
+// session: a token is accepted while its session lives (2 s) and refused afterwards, for a client that polls every 300 ms across the
+// expiry and for one that comes back later.
 use super::*;
 use crate::common::AppSysConfig;
 use crate::starter::{build_share_data, config_factory};
@@ -94,6 +96,33 @@ fn vx_bounded_c16_http() {
             if status == StatusCode::FORBIDDEN && body.contains("unknown user!") { bad.push(format!("VX-BOUNDED exempted endpoint {} {} is refused by the auth middleware", method, path)); }
         }
         if probes < 5000 { bad.push(format!("VX-BOUNDED only {} probes", probes)); }
+        // ---- the lifetime of a session: a token is accepted while its session lives and refused once it has run out — also for a
+        //      client that never pauses (an SDK polling with the token it got at login) and for one that comes back later.
+        //      The session is stored the way an applied login entry stores it (CacheManagerRaftReq::Set, time-to-live 2 s).
+        {
+            use crate::cache::actor_model::{CacheManagerRaftReq, CacheSetParam};
+            use crate::cache::model::CacheValue;
+            for (token, ttl) in [("vx-poll-token", 2i32), ("vx-late-token", 1i32)] {
+                let session = Arc::new(TokenSession { username: Arc::new("vx_user".to_owned()), roles: vec![], extend_infos: Default::default() });
+                app_data.direct_cache_manager.send(CacheManagerRaftReq::Set(CacheSetParam::new_with_ttl(
+                    CacheKey::new(CacheType::ApiTokenSession, Arc::new(token.to_owned())), CacheValue::ApiTokenSession(session), ttl))).await.unwrap().unwrap();
+            }
+            let t0 = std::time::Instant::now();
+            let (mut served_early, mut served_late) = (0usize, 0usize);
+            while t0.elapsed() < std::time::Duration::from_millis(7000) {
+                let req = atest::TestRequest::get().uri("/nacos/v1/cs/configs?dataId=vx-c16&group=DEFAULT_GROUP").insert_header(("accessToken", "vx-poll-token")).to_request();
+                let status = atest::call_service(&app, req).await.status();
+                let at = t0.elapsed().as_millis();
+                if at < 1200 { if status != StatusCode::FORBIDDEN { served_early += 1; } }
+                else if at > 4000 && status != StatusCode::FORBIDDEN { served_late += 1; if served_late == 1 { bad.push(format!("VX-BOUNDED EXPIRED polling client: {} ms after a login whose session lives 2 s the token is still accepted (status {})", at, status)); } }
+                tokio::time::sleep(std::time::Duration::from_millis(300)).await;
+            }
+            if served_early == 0 { bad.push("VX-BOUNDED EXPIRED probe is vacuous: the token of a live session was never accepted".to_owned()); }
+            // a client that shows up long after its session ran out
+            let req = atest::TestRequest::get().uri("/nacos/v1/cs/configs?dataId=vx-c16&group=DEFAULT_GROUP").insert_header(("accessToken", "vx-late-token")).to_request();
+            let status = atest::call_service(&app, req).await.status();
+            if status != StatusCode::FORBIDDEN { bad.push(format!("VX-BOUNDED EXPIRED late client: a token whose session ran out 6 s ago is accepted (status {})", status)); }
+        }
         bad
     });
     assert!(failures.is_empty(), "{} failing request(s), first ones:\n{}", failures.len(), failures.join("\n"));
